@@ -33,6 +33,7 @@ K3_NOTE = ("K3: the verified text is code emitted by the real compiler for schem
            "FRESH side conditions (id-suffixed locals are node-unique; checked by the FRESH units).")
 K3_ASSUME = COMMON_ASSUMPTIONS + ["A-COMP", "A-PURE", "A-MARKER", "HoleC for child code",
                                   "K2 contracts of __quote/__convert (proved under C02)"]
+FRESH = U('pyvc.fresh', 'unit', 'FRESH', needs_k3=True)
 TAL_BASIC = [K("k3::S-Define"), K("k3::S-Condition"), K("k3::S-Content"), K("k3::S-OmitTag"),
              K("k3::S-Attribute"), K("k3::S-Repeat")]
 
@@ -43,7 +44,7 @@ PROPS = {
                       "child behaviours (HoleC) and all iteration counts, to produce the stream and the "
                       "evaluation trace the language prescribes.",
         "level_note": K3_NOTE + " Not yet decided: statement combinations on one element and attribute-order independence.",
-        "units": TAL_BASIC,
+        "units": TAL_BASIC + [FRESH],
         "not_decided": ["combinations of statements on one element (in progress)",
                         "independence of attribute order (in progress)"],
         "assumptions": K3_ASSUME,
@@ -54,8 +55,8 @@ PROPS = {
                       "element's output by start tag + converted fallback + end tag, to call the handler "
                       "once iff configured, to bind `error`, and to let non-Exceptions propagate.",
         "level_note": K3_NOTE,
-        "units": [K("k3::S-OnError-keep")],
-        "not_decided": ["nested on-error (FRESH side condition, in progress)"],
+        "units": [K("k3::S-OnError-keep"), FRESH],
+        "not_decided": [],
         "assumptions": K3_ASSUME,
     },
     "C02": {
@@ -95,11 +96,10 @@ PROPS = {
                       "proved equal to spec functions of the number of items consumed, for every "
                       "position (unbounded: beyond 26 and 3999).",
         "level_note": "Trusted: list_iterator.__length_hint__ axiom, str/int builtin models "
-                      "(conformance-tested). Not decided yet: the emitted repeat loop (K3), "
-                      "RepeatDict.__call__, whitespace separator computation.",
-        "units": REPEAT,
-        "not_decided": ["emitted loop code and separators (pending K3)", "RepeatDict.__call__",
-                        "roman()/lower() case mapping"],
+                      "(conformance-tested). " + K3_NOTE,
+        "units": REPEAT + [K("k3::S-Repeat"), FRESH],
+        "not_decided": ["RepeatDict.__call__ (assumed as the contract of getname('repeat')(...) in K3)",
+                        "roman()/lower() case mapping", "whitespace computed by visit_element"],
         "assumptions": COMMON_ASSUMPTIONS,
     },
     "C11": {
